@@ -118,59 +118,68 @@ Proof.
 Qed.
 
 (* ---- one loop iteration ---- *)
-Definition MInv (m : maint) : Prop := Inv (mt_rt m).
+Definition MInv (m : maint) : Prop := Inv (mt_rt m) /\ Inv (mt_srt m).
 
 Lemma maintain_inv m now : MInv m -> MInv (fst (mt_maintain m now)).
 Proof.
-  unfold MInv, mt_maintain. intros I.
-  destruct (PING_INTERVAL <? now - mt_ping m)%Z.
-  - destruct (ping_round now (mt_rt m)) as [rt' p] eqn:E. cbn. replace rt' with (fst (ping_round now (mt_rt m))) by now rewrite E.
-    now apply ping_round_inv.
-  - cbn. exact I.
+  unfold MInv, mt_maintain. intros [I S]. cbn [fst mt_rt mt_srt].
+  destruct (PING_INTERVAL <? now - mt_ping m)%Z; split; auto using ping_round_inv.
 Qed.
 
-Lemma mk_node_ok i ip port now : id_wf i = true -> node_ok (mk_node i ip port None now).
-Proof. intros H. exact H. Qed.
-
-Theorem tick_inv m now resp : MInv m -> (forall i ip port, resp = Some (i, ip, port) -> id_wf i = true) ->
-  MInv (fst (mt_tick m now resp)).
+Lemma add_inv now t i ip port : Inv t -> id_wf i = true -> Inv (fst (rt_add now t (mk_node i ip port None now))).
 Proof.
-  intros I Hr. unfold mt_tick. pose proof (maintain_inv m now I) as I1.
-  destruct (mt_maintain m now) as [m1 o]. cbn [fst] in *.
-  destruct resp as [[[i ip] port]|]; [|exact I1].
-  unfold MInv, mt_response. cbn [mt_rt].
-  destruct (rt_add now (mt_rt m1) (mk_node i ip port None now)) as [t' r] eqn:E. cbn [fst].
-  eapply rt_add_inv; [exact I1| |exact E]. apply mk_node_ok. eapply Hr. reflexivity.
+  intros I Hw. destruct (rt_add now t (mk_node i ip port None now)) as [t' r] eqn:E. cbn [fst].
+  eapply rt_add_inv; [exact I| |exact E]. exact Hw.
+Qed.
+
+Definition input_wf (inp : tick_in) : Prop :=
+  match inp with
+  | INone => True
+  | IResp (i, _, _) _ | IReq (i, _, _) _ _ => id_wf i = true
+  end.
+
+Definition input_id (inp : tick_in) : option id :=
+  match inp with
+  | INone => None
+  | IResp (i, _, _) _ | IReq (i, _, _) _ _ => Some i
+  end.
+
+Theorem tick_inv m now inp : MInv m -> input_wf inp -> MInv (fst (mt_tick m now inp)).
+Proof.
+  intros I Hw. unfold mt_tick. cbn [fst]. pose proof (maintain_inv m now I) as [I1 S1].
+  destruct inp as [|[[i ip] port] v|[[i ip] port] v be]; cbn in Hw; [split; assumption| |].
+  - unfold MInv, mt_response. cbn [mt_rt mt_srt]. split; [now apply add_inv|]. destruct v; [now apply add_inv|assumption].
+  - unfold MInv, mt_request. cbn [mt_rt mt_srt]. split.
+    + destruct be; [now apply add_inv|assumption].
+    + destruct v; [now apply add_inv|assumption].
 Qed.
 
 (* a node heard from within the last 15 minutes is still in the table after a whole iteration, whoever
-   else answers in it (capacity and IP limits can refuse newcomers, they never push out a fresh node) *)
-Theorem tick_keeps_fresh m now resp n : MInv m ->
-  (forall i ip port, resp = Some (i, ip, port) -> id_wf i = true /\ i <> nid n) ->
+   else answers or asks in it (capacity and IP limits can refuse newcomers, they never push out a fresh node) *)
+Theorem tick_keeps_fresh m now inp n : MInv m -> input_wf inp -> input_id inp <> Some (nid n) ->
   In n (rt_values (mt_rt m)) -> is_stale now n = false ->
-  In n (rt_values (mt_rt (fst (mt_tick m now resp)))).
+  In n (rt_values (mt_rt (fst (mt_tick m now inp)))).
 Proof.
-  intros I Hr Hn Hf. unfold mt_tick.
-  assert (H1: In n (rt_values (mt_rt (fst (mt_maintain m now)))) /\ MInv (fst (mt_maintain m now))).
-  { split; [|now apply maintain_inv]. unfold mt_maintain. destruct (PING_INTERVAL <? now - mt_ping m)%Z.
-    - destruct (ping_round now (mt_rt m)) as [rt' p] eqn:E. cbn. replace rt' with (fst (ping_round now (mt_rt m))) by now rewrite E.
-      now apply ping_round_keeps_fresh.
-    - cbn. exact Hn. }
-  destruct (mt_maintain m now) as [m1 o]. cbn [fst] in *. destruct H1 as [H1 I1].
-  destruct resp as [[[i ip] port]|]; [|exact H1].
-  unfold mt_response. cbn [mt_rt]. destruct (Hr _ _ _ eq_refl) as [Hw Hne].
-  apply rt_add_never_evicts_fresh; [exact I1|exact H1|cbn; congruence|exact Hf].
+  intros I Hw Hne Hn Hf. unfold mt_tick. cbn [fst].
+  pose proof (maintain_inv m now I) as [I1 _].
+  assert (H1: In n (rt_values (mt_rt (fst (mt_maintain m now))))).
+  { unfold mt_maintain. cbn [fst mt_rt]. destruct (PING_INTERVAL <? now - mt_ping m)%Z; [|exact Hn].
+    apply ping_round_keeps_fresh; [apply I|exact Hn|exact Hf]. }
+  destruct inp as [|[[i ip] port] v|[[i ip] port] v be]; cbn in Hw, Hne; [exact H1| |].
+  - unfold mt_response. cbn [mt_rt]. apply rt_add_never_evicts_fresh; [exact I1|exact H1|cbn; congruence|exact Hf].
+  - unfold mt_request. cbn [mt_rt]. destruct be; [|exact H1].
+    apply rt_add_never_evicts_fresh; [exact I1|exact H1|cbn; congruence|exact Hf].
 Qed.
 
 (* the node that answers is in the table afterwards with last_seen = now, unless the table refuses it
    (self id, IP rule against another node, bucket full of fresh nodes) — in particular a known node
    answering from its known IP is always refreshed *)
-Theorem response_outcome m now i ip port :
+Theorem response_outcome m now i ip port v :
   let n := mk_node i ip port None now in
   snd (rt_add now (mt_rt m) n) = true -> MInv m -> id_wf i = true ->
-  In n (rt_values (mt_rt (mt_response m now (i, ip, port)))).
+  In n (rt_values (mt_rt (mt_response m now (i, ip, port) v))).
 Proof.
-  intros n Hr I Hw. unfold mt_response. cbn [mt_rt]. fold n.
+  intros n Hr [I _] Hw. unfold mt_response. cbn [mt_rt]. fold n.
   unfold rt_add in *. destruct (distance (rid (mt_rt m)) (nid n) =? 0); [discriminate|].
   destruct (existsb _ (rbuckets (mt_rt m))); [discriminate|].
   set (d := distance (rid (mt_rt m)) (nid n)) in *.
@@ -193,36 +202,38 @@ Theorem round_due m now : (PING_INTERVAL < now - mt_ping m)%Z ->
   o_round (snd (mt_maintain m now)) = true /\ mt_ping (fst (mt_maintain m now)) = now.
 Proof.
   intros H. unfold mt_maintain. assert (E: (PING_INTERVAL <? now - mt_ping m)%Z = true) by now apply Z.ltb_lt.
-  rewrite E. destruct (ping_round now (mt_rt m)). cbn. auto.
+  cbn [fst snd o_round mt_ping]. now rewrite E.
 Qed.
 
 Theorem round_not_due m now : (now - mt_ping m <= PING_INTERVAL)%Z ->
   o_round (snd (mt_maintain m now)) = false /\ mt_rt (fst (mt_maintain m now)) = mt_rt m /\ mt_ping (fst (mt_maintain m now)) = mt_ping m.
 Proof.
   intros H. unfold mt_maintain. assert (E: (PING_INTERVAL <? now - mt_ping m)%Z = false) by now apply Z.ltb_ge.
-  rewrite E. cbn. auto.
+  cbn [fst snd o_round mt_ping mt_rt]. now rewrite E.
 Qed.
 
 (* silent for more than 15 minutes at an iteration in which a round is due: gone after that iteration,
    unless it answers in this very iteration *)
 Theorem tick_drops_stale m now s : MInv m -> In s (rt_values (mt_rt m)) -> is_stale now s = true ->
   (PING_INTERVAL < now - mt_ping m)%Z ->
-  forall x, In x (rt_values (mt_rt (fst (mt_tick m now None)))) -> nid x <> nid s.
+  forall x, In x (rt_values (mt_rt (fst (mt_tick m now INone)))) -> nid x <> nid s.
 Proof.
-  intros I Hs St Due x. unfold mt_tick, mt_maintain.
+  intros [I _] Hs St Due x. unfold mt_tick, mt_maintain. cbn [fst mt_rt].
   assert (E: (PING_INTERVAL <? now - mt_ping m)%Z = true) by now apply Z.ltb_lt. rewrite E.
-  destruct (ping_round now (mt_rt m)) as [rt' p] eqn:R. cbn.
-  replace rt' with (fst (ping_round now (mt_rt m))) by now rewrite R.
   now apply ping_round_drops_stale.
 Qed.
 
 (* an empty table or a due refresh re-bootstraps in that very iteration *)
 Theorem empty_table_populates m now : rt_is_empty (mt_rt m) = true -> o_populate (snd (mt_maintain m now)) = true.
-Proof. intros H. unfold mt_maintain. rewrite H. destruct (PING_INTERVAL <? _)%Z; [destruct (ping_round _ _)|]; reflexivity. Qed.
+Proof. intros H. unfold mt_maintain. cbn [snd o_populate]. now rewrite H. Qed.
 
 Theorem refresh_due m now : (REFRESH_INTERVAL < now - mt_refresh m)%Z ->
   o_populate (snd (mt_maintain m now)) = true /\ mt_refresh (fst (mt_maintain m now)) = now.
 Proof.
   intros H. unfold mt_maintain. assert (E: (REFRESH_INTERVAL <? now - mt_refresh m)%Z = true) by now apply Z.ltb_lt.
-  rewrite E. destruct (PING_INTERVAL <? _)%Z; [destruct (ping_round _ _)|]; cbn; rewrite orb_true_r; auto.
+  cbn [fst snd o_populate mt_refresh]. rewrite E. rewrite orb_true_r. auto.
 Qed.
+
+(* requests never touch the main table of a node that has bootstrap nodes (only the signed-peers table) *)
+Theorem request_leaves_main_table m now who v : mt_rt (mt_request m now who v false) = mt_rt m.
+Proof. destruct who as [[i ip] port]. reflexivity. Qed.
